@@ -542,3 +542,8 @@ macro_rules! toy_base {
     )*};
 }
 toy_base!(Q7 = 7, Q11 = 11, Q19 = 19, C7 = 7);
+
+// ---------------------------------------------------------------------------------------------
+// toy groups with a real group law and a separate scalar field for the window loop of msm_serial (notes/K4.md)
+#[path = "toy_msm.rs"]
+pub mod msm;
